@@ -341,10 +341,10 @@ func (c *Ctx) basicLatinModel() (blProblems, *ast.FuncDecl) {
 					idx, runeText, body = mm[1], mm[1], seg[j+1:end2]
 				} else if e2.Text == "range "+tbl {
 					idx, runeText, body = "#2", "rune(#2)", seg[j+1:end2]
-				} else if e2.Text == "range rune(128)" {
+				} else if e2.Text == "range rune(128)" || e2.Text == "range rune(len("+tbl+"))" {
 					// range over the integer 128 with a rune-typed loop variable: the variable is the rune
 					idx, runeText, body = "#2", "#2", seg[j+1:end2]
-				} else if e2.Text == "range 128" {
+				} else if e2.Text == "range 128" || e2.Text == "range len("+tbl+")" {
 					idx, runeText, body = "#2", "rune(#2)", seg[j+1:end2]
 				}
 			}
